@@ -227,3 +227,10 @@ def check(ctx, run):  # noqa: F811
     histories_rule(ctx, run, "C12.R9")
     from ..registry import resimulation_rule
     resimulation_rule(ctx, run, "C12.R9", only=("resim-payoff",))
+    # ... and every history of at most 2 (thorough: 3) operations against the reference semantics of the registries
+    from ..registry import exhaustive_histories_rule
+    import os as _os
+    if ctx.tier == "thorough":
+        exhaustive_histories_rule(ctx, run, "C12.R9x", 3, jobs=max(1, min(8, _os.cpu_count() or 1)))
+    else:
+        exhaustive_histories_rule(ctx, run, "C12.R9x", 2)
